@@ -340,6 +340,55 @@ def bEvRun [Zero R] [One R] [Add R] [Sub R] [Mul R] [NatCast R] [LE R] [Decidabl
     BEvSt P X R :=
   hist.foldl (bEvStep env L r) (bEvReset env rng)
 
+/-! ## `actor_step` / `generate_unroll` on a batch -/
+
+/-- batched `Transition` (leading axis = batch member) -/
+structure BTransition (R A : Type) where
+  observation : List (List R)
+  action : List A
+  reward : List R
+  discount : List R
+  nextObservation : List (List R)
+  truncation : List R
+
+/-- what `actor_step` reads from a batched environment state -/
+structure BView (S R : Type) where
+  obs : S → List (List R)
+  reward : S → List R
+  done : S → List R
+  truncation : S → List R
+
+/-- `actor_step` on a batch: one policy call on the `[B, n]` observations, `1 - done`
+element-wise -/
+def bActorStep [One R] [Sub R] (v : BView S R) (step : S → List A → S)
+    (pol : List (List R) → Ky → List A) (s : S) (key : Ky) : S × BTransition R A :=
+  let a := pol (v.obs s) key
+  let n := step s a
+  (n, ⟨v.obs s, a, v.reward n, (v.done n).map (1 - ·), v.obs n, v.truncation n⟩)
+
+/-- `generate_unroll` on a batch -/
+def bUnroll [One R] [Sub R] (v : BView S R) (step : S → List A → S)
+    (pol : List (List R) → Ky → List A) (split : Ky → Ky × Ky) :
+    Nat → S → Ky → S × List (BTransition R A)
+  | 0, s, _ => (s, [])
+  | n + 1, s, key =>
+    let ks := split key
+    let st := bActorStep v step pol s ks.1
+    let rest := bUnroll v step pol split n st.1 ks.2
+    (rest.1, st.2 :: rest.2)
+
+def bArView : BView (BArSt P X R) R :=
+  ⟨fun s => s.ep.st.obs, fun s => s.ep.st.reward, fun s => s.ep.st.done, fun s => s.ep.truncation⟩
+def bEvView : BView (BEvSt P X R) R :=
+  ⟨fun s => s.ar.ep.st.obs, fun s => s.ar.ep.st.reward, fun s => s.ar.ep.st.done,
+   fun s => s.ar.ep.truncation⟩
+
+/-- `Evaluator._generate_eval_unroll`: batched reset, then `L // r` policy steps -/
+def bEvalRun [Zero R] [One R] [Add R] [Sub R] [Mul R] [NatCast R] [LE R] [DecidableLE R]
+    [DecidableEq R] (env : BEnv K P X R A) (L r : Nat) (pol : List (List R) → Ky → List A)
+    (split : Ky → Ky × Ky) (rng : List K) (key : Ky) : BEvSt P X R :=
+  (bUnroll bEvView (bEvStep env L r) pol split (L / r) (bEvReset env rng) key).1
+
 end Brax.C15
 
 namespace Brax.C15
